@@ -35,7 +35,7 @@ def merged_items(items):
 
 def run(ck, rng):
     exe = build_godriver()
-    forests = enum_forests(4 if ck.tier == "quick" else 5)
+    forests = enum_forests(4 if ck.tier == "quick" else 5) + wide_forests(10)[::3]
     for _ in range(250 if ck.tier == "quick" else 6000):
         forests.append(gen_forest(rng, max_nodes=14 if rng.random() < 0.8 else 40, pool=rng.choice(["mixed", "ascii", "fs", "fs_hostile"])))
     cases, specs, texts, meta = [], [], [], []
